@@ -264,6 +264,15 @@ def main(argv=None):
 
     conf = [r for r in results if r.get("status") == "confirmed"]
     if os.environ.get("VERIF_VERBOSE"):
+        agg = {}
+        for r in results:
+            k = r["name"].split("/")[0]
+            a_ = agg.setdefault(k, [0, 0, 0.0])
+            a_[0] += 1
+            a_[1] += r.get("paths") or 0
+            a_[2] += r.get("wall_s") or 0.0
+        for k, v in agg.items():
+            print("  [group %s] obligations=%d paths=%d cpu=%.0fs" % (k, v[0], v[1], v[2]))
         for r in sorted(results, key=lambda r: -r.get("wall_s", 0)):
             print("  %-55s %-12s paths=%-6s reached=%-6s q=%-7s solver=%-7.1f wall=%.1f" % (
                 r["name"], r.get("status"), r.get("paths"), r.get("reached"), r.get("queries"), r.get("solver_s", 0.0), r.get("wall_s", 0.0)))
